@@ -114,7 +114,7 @@ def enc_float(nf):
 def enc_number(fr, prefer_int=True):
     """The five bytes the ROM would store for a value: integers up to 65535 in the small form, the rest floating point."""
     fr = Fraction(fr)
-    if prefer_int and fr.denominator == 1 and -65535 <= fr <= 65535:
+    if fr == 0 or (prefer_int and fr.denominator == 1 and -65535 <= fr <= 65535):
         return enc_int(int(fr))
     return enc_float(nf_nearest(fr))
 
@@ -701,7 +701,7 @@ def program_job(job):
         cut = rng.randint(1, max(1, min(len(prog_bytes) - 1, 30))) if prog_bytes else 0
         prog = 65536 - (len(prog_bytes) - cut) if prog_bytes else 65535
         data = prog_bytes[:len(prog_bytes) - cut] if prog_bytes else [rng.randrange(64)]
-        vars_ = rng.choice((0, 65535, prog))
+        vars_ = rng.choice((0, 65535, 65535, 65535))
         wf_prog, wf_vars = 0, 0
     elif flavour == 'prog65535':
         prog, data = 65535, [rng.choice((0, 39, 63, 64, 128, 255))]
@@ -748,8 +748,10 @@ def memory_job(job):
     rng = random.Random(sd * 7000003 + n)
     machine, page, o7ffd = _machine(rng, 0.3)
     allbanks = 1 if machine == '128K' and rng.random() < 0.6 else 0
+    if page == 7:
+        o7ffd &= ~8                                          # the shadow screen is not also the paged bank here
     fill = rng.choice((0, 0, 0, 255, rng.randrange(256)))
-    others = [b for b in range(256) if b != fill]
+    others = [b for b in (range(33, 127) if rng.random() < 0.5 else range(256)) if b != fill and b != 45]
     alpha = [fill] + rng.sample(others, 2)                  # a small alphabet so that sequences recur
     # ---- regions in the 64K view (cut into banks below); a busy tile on screen --------------------------------
     x, y = rng.randrange(32), rng.randrange(24)
@@ -779,7 +781,6 @@ def memory_job(job):
         for k in range(8):
             put(a + k * d, [tile[k]])
         dists.append(d)
-    tile_view = dict(regions)
     scr = 7 if (allbanks and o7ffd & 8) else 5
     for k in range(8):
         if scr == 5:
